@@ -1,20 +1,15 @@
 #!/usr/bin/env bash
-# Dev tool: (re)process every sub-agent seed: confirm new ones, re-run all quick checks on already confirmed ones.
+# Dev tool: re-run all quick checks on every confirmed seed under /verif/seeded and refresh meta.json.
 cd /verif
-for p in C01 C02 C03 C04 C05 C06 C07 C08 C09 C10 C11 C12 C13 C14 C15 C16 C17 C18 C19 C20; do
-  for n in 1 2; do
-    ID="$p-$n"
-    if [ -f seeded/$ID/patch.diff ]; then
-      C=$(MUT_SCRATCH=/tmp/mut2 python3 tools/seedcheck.py seeded/$ID/patch.diff 2>&1)
-      echo "$C" | sed "s/^/$ID: /"
-      CAUGHT=$(echo "$C" | grep "^CAUGHT-BY:" | sed 's/CAUGHT-BY: //')
-      python3 - "$ID" "$CAUGHT" <<'PY'
+for d in seeded/*/; do
+  ID=$(basename $d)
+  [ -f seeded/$ID/patch.diff ] || continue
+  C=$(MUT_SCRATCH=/tmp/mut2 python3 tools/seedcheck.py seeded/$ID/patch.diff 2>&1)
+  echo "$C" | sed "s/^/$ID: /"
+  CAUGHT=$(echo "$C" | grep "^CAUGHT-BY:" | sed 's/CAUGHT-BY: //')
+  python3 - "$ID" "$CAUGHT" <<'PY'
 import json,sys
 i,c=sys.argv[1:3]
 p=f'/verif/seeded/{i}/meta.json'; m=json.load(open(p)); m['quick_checks_that_caught_it']=[] if c in('none','') else c.split(); json.dump(m,open(p,'w'),indent=1)
 PY
-    else
-      tools/process_seed.sh $p $n
-    fi
-  done
 done
